@@ -83,14 +83,14 @@ type msgSpec struct {
 
 // Case is one fully determined scenario (also the replay format).
 type Case struct {
-	Sizes       []int  `json:"sizes"`
-	Compressed  []bool `json:"compressed_flags"`
-	Encoding    string `json:"grpc_encoding"`
-	EndStream   string `json:"end_stream_on"`
-	Direction   string `json:"direction"`
-	ContentType string `json:"content_type"`
-	Cuts        []int  `json:"cuts"`
-	StreamLen   int    `json:"stream_len"`
+	Sizes       []int  `json:"sizes,omitempty"`
+	Compressed  []bool `json:"compressed_flags,omitempty"`
+	Encoding    string `json:"grpc_encoding,omitempty"`
+	EndStream   string `json:"end_stream_on,omitempty"`
+	Direction   string `json:"direction,omitempty"`
+	ContentType string `json:"content_type,omitempty"`
+	Cuts        []int  `json:"cuts,omitempty"`
+	StreamLen   int    `json:"stream_len,omitempty"`
 	// multi-stream histories: the streams created, in order, on ONE factory and the order of their calls
 	History []Case `json:"history,omitempty"`
 	Order   []int  `json:"call_order,omitempty"`
